@@ -71,13 +71,13 @@ PROPERTIES = {
         modules=['warc'], level='proof', bounded=['c05_reader.py'],
         claim='WARCRecord.__iter__ yields exactly "WARC/1.0 CRLF" fields CRLF block CRLF CRLF and restores the block file position; compute_checksum sets '
               'Content-Length to the block length, WARC-Block-Digest to sha1 of the whole block and WARC-Payload-Digest to sha1 of block[offset:] '
-              '(two distinct hasher objects, loop invariants over the 4096-byte reads); write_record stamps the id of the current warcinfo record. '
+              '(two distinct hasher objects, loop invariants over the 4096-byte reads); write_record stamps the id of the current warcinfo record; HTTPWARCRecorderSession.begin_response records as payload offset the length of the header block exactly as received (position of the response temp file), consuming nothing and binding the temp file as the record block. '
               'BOUNDED (labelled): every file the real recorder writes for all 64 configurations, fed through the real HTTP recorder session with '
               'non-canonical header formattings, is read back by an independent strict reader (lengths, CRLF CRLF, unique ids, warcinfo id, both digests).',
         note='SHA-1 / base32 / uuid4 are uninterpreted; file read() returns exactly min(n, remaining) bytes; NameValueRecord serialisation and the HTTP '
-             'recorder session\'s payload offset are not under contract (bounded stand-in only). One genuine defect (payload offset from a re-serialised '
+             'recorder session\'s use of the payload offset in end_response are not under contract (bounded stand-in only); WARCRecord() / set_common_fields are assumed at the begin_response call sites. One genuine defect (payload offset from a re-serialised '
              'header) was found by the stand-in and repaired (fix: commit).',
-        not_decided=['payload offset = end of the header block inside the response block (HTTPWARCRecorderSession.end_response): not under contract yet',
+        not_decided=['payload offset: begin_response is under contract (offset = length of what response_data appended before it = the received header block); that end_response hands this same value to compute_checksum is still bounded only (c05_reader)',
                      'one gzip member per record: assumed property of gzip.GzipFile'],
     ),
     'C06': dict(
